@@ -6,7 +6,8 @@
 (*                                                                         *)
 (* A trace of kind "rt" is one format -> parse -> format execution on a    *)
 (* random structure (deeper than the model-checked space):                 *)
-(*   [kind, r, t, p, warn, exc, t2, same]                                  *)
+(*   [kind, r, t, p, warn, exc, t2, same,                                  *)
+(*    p2, warn2, same2, rs, ts, ps, warns, sames, fmtsame]                 *)
 (*   r     the structure given to PkgRelation.str (atoms as in PkgRelation,*)
 (*         payload strings interned to ids)                                *)
 (*   t     the produced string as token codes (independent tokenizer of    *)
@@ -23,7 +24,18 @@
 (*                        specification explains what the code returned    *)
 (*   3 p = r, no warning  (Inverse, NoWarning)                             *)
 (*   4 t2 = t, same       (Stable)                                         *)
-(* <<"ACCEPTED", tid>> is printed for a trace that passes 2, 3 and 4.      *)
+(*   5 history (PkgRelationMemo): after step 4 the harness EDITED the      *)
+(*     returned structure in place (appended to every arch list, reversed  *)
+(*     and extended every restriction formula, popped keys) and parsed the *)
+(*     SAME string again: p2 / warn2 / same2 (str(p2) == the string).      *)
+(*     Parse(t) -- memo-free, history-free -- must still explain it:       *)
+(*     Parse(t) = p2 = r, no warning                                       *)
+(*   6 then a DIFFERENT relation rs that shares an alternative with r was  *)
+(*     formatted (ts), parsed (ps, warns) and formatted again (sames):     *)
+(*     Parse(ts) = ps = rs, no warning; fmtsame: str(r) gave the first     *)
+(*     string again after an edited deep copy of r had been formatted      *)
+(*     (the formatter remembers nothing)                                   *)
+(* <<"ACCEPTED", tid>> is printed for a trace that passes 2 .. 6.          *)
 (*                                                                         *)
 (* A trace of kind "probe" (DIAGNOSTIC, a rejection is reported as drift)  *)
 (* is one parse_relations call on a string that is NOT formatter output:   *)
@@ -76,7 +88,26 @@ TStable == /\ Tr.kind = "rt"
            /\ Tr.same
            /\ Tr.t2 = Tr.t
            /\ Advance
-           /\ PrintT(<<"ACCEPTED", tid>>)
+
+TReparse == /\ Tr.kind = "rt"
+            /\ l = 5
+            /\ LET p == Parse(Toks(Tr.t))
+               IN ~p.exc /\ p.warn = Tr.warn2 /\ p.rel = Tr.p2
+            /\ ~Tr.warn2
+            /\ Tr.p2 = Tr.r
+            /\ Tr.same2
+            /\ Advance
+
+TShare == /\ Tr.kind = "rt"
+          /\ l = 6
+          /\ LET p == Parse(Toks(Tr.ts))
+             IN ~p.exc /\ p.warn = Tr.warns /\ p.rel = Tr.ps
+          /\ ~Tr.warns
+          /\ Tr.ps = Tr.rs
+          /\ Tr.sames
+          /\ Tr.fmtsame
+          /\ Advance
+          /\ PrintT(<<"ACCEPTED", tid>>)
 
 TProbe == /\ Tr.kind = "probe"
           /\ l = 1
@@ -86,6 +117,6 @@ TProbe == /\ Tr.kind = "probe"
           /\ Advance
           /\ PrintT(<<"ACCEPTED", tid>>)
 
-TNext == TFormat \/ TParse \/ TInverse \/ TStable \/ TProbe
+TNext == TFormat \/ TParse \/ TInverse \/ TStable \/ TReparse \/ TShare \/ TProbe
 TSpec == TInit /\ [][TNext]_tvars
 =============================================================================
